@@ -582,20 +582,21 @@ class AsyncFIXConnection:
         if self._connection_role == ConnectionRole.ACCEPTOR:
             assert self._connection_state == ConnectionState.LOGON_INITIAL_RECV
             if msg_seq_num >= self._session.next_num_in:
-                if (
-                    FTag.EncryptMethod not in logon_msg
-                    or FTag.HeartBtInt not in logon_msg
-                ):
-                    # cannot be answered: refuse it, a Logon exchange that was not
-                    #  completed must not leave the connection open for messages
+                try:
+                    encrypt_method = logon_msg[FTag.EncryptMethod]
+                    heart_bt_int = logon_msg[FTag.HeartBtInt]
+                except FIXMessageError:
+                    # missing or given twice, it cannot be answered: refuse it, a
+                    #  Logon exchange that was not completed must not leave the
+                    #  connection open for messages
                     await self.disconnect(
                         ConnectionState.DISCONNECTED_BROKEN_CONN,
                         logout_message="Logon without EncryptMethod / HeartBtInt",
                     )
                     return
                 msg_logon = FIXMessage(FMsg.LOGON)
-                msg_logon.set(FTag.EncryptMethod, logon_msg[FTag.EncryptMethod])
-                msg_logon.set(FTag.HeartBtInt, logon_msg[FTag.HeartBtInt])
+                msg_logon.set(FTag.EncryptMethod, encrypt_method)
+                msg_logon.set(FTag.HeartBtInt, heart_bt_int)
                 await self.send_msg(msg_logon)
 
         if self._connection_state == ConnectionState.RESENDREQ_AWAITING:
